@@ -139,18 +139,58 @@ Definition submit (cap : N) (e : exec) (t : task) : bool * exec :=
 Definition worker_free (e : exec) (w : nat) : bool :=
   match nth_error (erun e) w with Some None => true | _ => false end.
 
-(* the atomic steps a schedule is made of *)
+(* the atomic steps a schedule is made of.  PopLocal and StealFrom are whole calls of pop_local() /
+   steal(); since each of these takes its two mutexes one after the other, their halves are steps of
+   their own as well (PopOwnSteal, StealQ, StealL), so that every execution of the real code, in which
+   only a single critical section is atomic, is an interleaving of these steps. *)
 Inductive step :=
 | Submit (t : task)
+| SubmitRace                (* submit whose capacity probe passed but whose push_local lost the race: rejected *)
 | PopLocal (w : nat)        (* find_task step 1 *)
+| PopOwnSteal (w : nat)     (* second critical section of the repaired pop_local: own steal queue *)
 | PopGlobal (w : nat)       (* find_task step 2 (try_lock succeeded) *)
 | StealFrom (w v : nat)     (* find_task step 3, victim v *)
+| StealQ (w v : nat)        (* first critical section of steal(): the victim's steal queue *)
+| StealL (w v : nat)        (* second critical section of steal(): the victim's local queue *)
 | Balance (w : nat)         (* my_queue.balance(), also public *)
 | Finish (w : nat).         (* task.execute().await returned; total_executed += 1 *)
 
 Definition wstep (fixed : bool) (e : exec) (s : step) : exec :=
   match s with
   | Submit _ => e
+  | SubmitRace => mkE (eqs e) (eglob e) (w64 (enext e + 1)) (erun e) (edone e)
+  | PopOwnSteal w =>
+      if fixed && worker_free e w then
+        match nth_error (eqs e) w with
+        | Some q => match qsteal q with
+                    | t :: r => set_run (set_q e w (mkQ (qlocal q) r)) w (Some t)
+                    | [] => e
+                    end
+        | None => e
+        end
+      else e
+  | StealQ w v =>
+      if worker_free e w && negb (Nat.eqb w v) then
+        match nth_error (eqs e) v with
+        | Some q => match qsteal q with
+                    | t :: r => set_run (set_q e v (mkQ (qlocal q) r)) w (Some t)
+                    | [] => e
+                    end
+        | None => e
+        end
+      else e
+  | StealL w v =>
+      if worker_free e w && negb (Nat.eqb w v) then
+        match nth_error (eqs e) v with
+        | Some q => if 1 <? nlen (qlocal q) then
+                      match remove_last_stealable (qlocal q) with
+                      | Some (t, l') => set_run (set_q e v (mkQ l' (qsteal q))) w (Some t)
+                      | None => e
+                      end
+                    else e
+        | None => e
+        end
+      else e
   | PopLocal w =>
       if worker_free e w then
         match nth_error (eqs e) w with
@@ -200,7 +240,7 @@ Fixpoint run (fixed : bool) (cap : N) (e : exec) (acc : list task) (steps : list
   | s :: r => run fixed cap (wstep fixed e s) acc r
   end.
 
-Definition is_submit (s : step) : bool := match s with Submit _ => true | _ => false end.
+Definition is_submit (s : step) : bool := match s with Submit _ | SubmitRace => true | _ => false end.
 
 Fixpoint cat_some {A} (l : list (option A)) : list A :=
   match l with
